@@ -183,7 +183,7 @@ func runBatch(id, tier string, seed int64, b props.Batch, bin, binRace, runDir, 
 	timeout := time.Duration(b.TimeoutS) * time.Second
 	if timeout == 0 {
 		if tier == "quick" {
-			timeout = 15 * time.Minute
+			timeout = 6 * time.Minute
 		} else {
 			timeout = 3 * time.Hour
 		}
